@@ -7,6 +7,7 @@ import PhysisModel.Spec.Crc32
 import PhysisModel.Model.Mtrl
 import PhysisModel.Spec.Mtrl
 import PhysisModel.Spec.MtrlText
+import PhysisModel.Base.Mutate
 /-!
 Driver of C14.  Ops:
 
@@ -16,6 +17,9 @@ Driver of C14.  Ops:
 * `shpk key=value …` — a stored shader package (`Spec.Shpk.PackageF`), encoded here by
   `Spec.Shpk.encode`; `q=` lists the selectors passed to `find_node`
 * `mtrl key=value …` — a stored material, encoded by `Spec.Mtrl.encode`
+* `mut <seed> <k> shpk …` / `mut <seed> <k> mtrl …` — the same encoded file with `k` bytes damaged
+  (`Base/Mutate.lean`); expected = the model's answer on the damaged file (tag `corr`); the reader's
+  panic sites return `None` since the C18 fixes, so `panic` and `none` are one answer here
 -/
 namespace Physis.Driver.C14
 open Physis Physis.Proto Physis.MsCommon
@@ -127,13 +131,21 @@ def specFind (p : ShaderPackage) (sel : UInt32) : String :=
   | none => "none"
   | some i => if i < p.nodes.length then toString i else "panic"
 
-def handleShpk (fs : List String) : String :=
+def handleShpk (fs : List String) (dmg : Option (UInt64 × Nat) := none) : String :=
   match kvs fs with
   | none => bad
   | some m =>
     match pPackage m, (get m "q").bind pU32s with
     | some f, some qs =>
       if !WF f then bad else
+      if let some (seed, k) := dmg then
+        let file := Mutate.mutate (encode f) seed k
+        let model := match Shpk.fromExisting file with
+          | .ok p => render p ++ ";find=" ++ brk "," (qs.map fun q =>
+              match Shpk.findNodeIdx p q with | .ok (some i) => toString i | _ => "none")
+          | .error _ => "none"
+        answer ("shpk " ++ Bytes.toHex file ++ " " ++ showNatList (qs.map (·.toNat))) model ["corr", "mut"]
+      else
       let file := encode f
       let v := view f
       let expected := render v ++ ";find=" ++ brk "," (qs.map (specFind v))
@@ -238,13 +250,20 @@ def pMaterial (m : List (String × String)) : Option MaterialF := do
     samplers := ← (splitList "," (← get m "samp")).mapM pSampler
     shaderValues := ← pU32s (← get m "vals"), trailing := ← Bytes.ofHex (← get m "trail") }
 
-def handleMtrl (fs : List String) : String :=
+def handleMtrl (fs : List String) (dmg : Option (UInt64 × Nat) := none) : String :=
   match kvs fs with
   | none => bad
   | some m =>
     match pMaterial m with
     | some f =>
       if !WF f then bad else
+      if let some (seed, k) := dmg then
+        let file := Mutate.mutate (encode f) seed k
+        let model := match Mtrl.fromExisting file with
+          | .ok p => render p
+          | .error _ => "none"
+        answer ("mtrl " ++ Bytes.toHex file) model ["corr", "mut"]
+      else
       let file := encode f
       let model := match Mtrl.fromExisting file with
         | .ok p => render p
@@ -279,6 +298,14 @@ def handle (line : String) : String :=
     | none => bad
   | "shpk" :: rest => handleShpk rest
   | "mtrl" :: rest => M.handleMtrl rest
+  | "mut" :: seed :: k :: "shpk" :: rest =>
+    match seed.toNat?, k.toNat? with
+    | some s, some k => handleShpk rest (some (s.toUInt64, k))
+    | _, _ => bad
+  | "mut" :: seed :: k :: "mtrl" :: rest =>
+    match seed.toNat?, k.toNat? with
+    | some s, some k => M.handleMtrl rest (some (s.toUInt64, k))
+    | _, _ => bad
   | _ => bad
 
 end Physis.Driver.C14
